@@ -128,6 +128,7 @@ class Schemas:
         self.items = []     # (label, types, placeholders, body, templates)
         self.cache = {}
         self.keep = []
+        self.hints = []
         self._n = 0
 
     def add(self, label, types, fn):
@@ -153,12 +154,16 @@ class Schemas:
         ground = [(typ, t) for typ, t in found if not _mentions_any(t, ph_ids)]
         self.items.append((label, types, ph, body, templates, ground))
 
-    def instantiate(self, formulas, max_instances=8000, rounds=2):
+    def instantiate(self, formulas, max_instances=None, rounds=None):
+        max_instances = max_instances or getattr(self.typing, "max_instances", 8000)
+        rounds = rounds or getattr(self.typing, "rounds", 2)
         cands = {}
         self.typing.collect(formulas, cands)
         for it in self.items:
             for typ, t in it[5]:
                 cands.setdefault(typ, {})[t.get_id()] = t
+        for typ, t in self.hints:           # instantiation hints given by the sidecar (extra ground terms)
+            cands.setdefault(typ, {})[t.get_id()] = t
         used = set()
         out = []
         truncated_any = False
